@@ -87,13 +87,14 @@ def run(sc):
         n += 1
         async def life():
             bk = InMemoryBroker(max_async_tasks=A, propagate_exceptions=prop, cast_types=cast); await bk.startup()
+            if A == 4: await bk.shutdown(); await bk.startup()          # a second life: started, shut down, started again (test suites and long-lived applications do this)
             r_ = bk.receiver; got = {'max_async_tasks': getattr(getattr(r_, 'sem', None), '_value', None), 'propagate_exceptions': r_.propagate_exceptions, 'validate_params': r_.validate_params}
             await bk.shutdown(); return got
         try: got = asyncio.run(life())
         except BaseException as ex:
             fails.append({'key': f"InMemoryBroker life-cycle A={A}", 'failed_clauses': [f"C12: InMemoryBroker startup failed with {type(ex).__name__}: {str(ex)[:100]}"]}); continue
         want = {'max_async_tasks': (A, ['C03', 'C04']), 'propagate_exceptions': (prop, ['C12']), 'validate_params': (cast, ['C08'])}
-        pr = [f"{p_}: after InMemoryBroker(max_async_tasks={A}, propagate_exceptions={prop}, cast_types={cast}).startup() the broker's receiver has {opt}={got.get(opt)!r}"
+        pr = [f"{p_}: after InMemoryBroker(max_async_tasks={A}, propagate_exceptions={prop}, cast_types={cast}).startup(){' / shutdown() / startup()' if A == 4 else ''} the broker's receiver has {opt}={got.get(opt)!r}"
               for opt, (v, ps) in want.items() if got.get(opt) != v for p_ in ps]
         if pr: fails.append({'key': f"InMemoryBroker after startup A={A} propagate={prop} cast={cast}", 'failed_clauses': pr})
     return {'reproduced': bool(fails), 'runs': n, 'n_failures': len(fails), 'failures': fails[:400], 'bound': '3 x 2 x 2 x 2 x 3 x 2 x 2 command lines through WorkerArgs.from_cli and start_listen with a recording receiver'}
